@@ -50,6 +50,20 @@ Accepted subset (anything else raises TranslateError with file:line):
               `return a, b, c` only;  calls of the
               functions of SPECS / EXTERN (positional arguments).
 
+Before translation a function is NORMALISED at source level (`normalise`, each rewrite under side conditions
+checked there; when one does not hold the source is left as it is and judged by the subset above):
+  N1  for x, y in <literal tuple / list of literal tuples of constants> (also through a local bound once to such a
+      literal): the body once per row, the loop variables replaced by the constants
+  N2  getattr(e, '<identifier>') -> e.<identifier>
+  N3  x = [] / {} / Counter(); ...; P = x  ->  later uses of x in that statement list stand for the path P (one object)
+  N7  P.update((k, v) for x in it) -> __require_dict__(P); for x in it: P[k] = v
+  N8  y = P.setdefault(k, <fresh empty>) -> key = k; __require_dict__(P); if key not in P: P[key] = <fresh>; y stands for P[key]
+  N9  T = {k: v for x in it} -> T = {}; for x in it: T[k] = v
+  N10 for i, x in enumerate(f, <int constant>): body -> i = <constant>; for x in f: body; i += 1
+and the translator itself accepts a chained comparison a op b op' c (b a name / constant) as `a op b and b op' c`,
+range(n), and `x = P[k]` / `x = P.a` read from a variable that is mutated elsewhere as a copy GUARDED by
+Loader2Rt.dy_scalar (XUnmodelled unless the value is None / bool / int / float / str, for which a copy is exact).
+
 Every value is a Loader2Rt.pyval and every operation checks its operands at run time:
 TypeError, KeyError, IndexError, AttributeError, ValueError (int / float), IOError (open),
 configparser.Error are values (Loader2Rt.xexn); `except` clauses catch by Python's class
@@ -80,6 +94,7 @@ What the translation does NOT model / trusts:
   * rebinding of the translated functions / of the modules and builtins from elsewhere.
 """
 import ast
+import copy
 import hashlib
 import os
 import sys
@@ -138,7 +153,7 @@ EXC_CLASSES = {
     "AttributeError": "CAttributeError",
 }
 MODULES = ("os", "sys", "codecs", "configparser", "json", "traceback")
-BUILTINS = ("float", "int", "len", "open", "print", "range", "str") + tuple(EXC_CLASSES)
+BUILTINS = ("float", "int", "len", "open", "print", "range", "str", "getattr") + tuple(EXC_CLASSES)
 MUTATING_METHODS = {"append", "read_file", "read", "insert", "extend", "pop", "remove", "clear", "update", "sort",
                     "reverse", "setdefault", "popitem", "add", "discard", "seek", "write", "close"}
 
@@ -194,6 +209,352 @@ def _has_slice(t):
             return True
         t = t.value
     return False
+
+
+
+# ---------------------------------------------------------------------------------------------
+# Source-level normalisation (before translation).  Each rewrite replaces a statement form by an
+# EQUIVALENT one of the accepted subset, under side conditions that are checked here (fail
+# closed: when a condition does not hold the source is left as it is and the translator judges it).
+#
+#  N1  for x, y in <literal tuple / list of literal tuples of constants>: body      (also for x in
+#      <literal sequence of constants>, and a local name bound ONCE to such a literal and used
+#      nowhere else)  ->  the body once per element, the loop variables replaced by the constants.
+#      Conditions: no break / continue directly in the body, the loop variables are not assigned
+#      in the body and not used after the loop, no `else`.
+#  N2  getattr(e, '<identifier>') with two arguments  ->  e.<identifier>   (getattr is the builtin:
+#      the module check refuses modules that mention getattr otherwise - see _module)
+#  N3  x = <fresh empty container: [] / {} / Counter()> ... P = x  (P a subscript / attribute path,
+#      both in one statement list, x not used in between)  ->  every later use of x in that statement
+#      list is replaced by P: x and P name the SAME object from the store on.  Conditions: x is not
+#      assigned again and not used outside that statement list, no name occurring in P is assigned
+#      later in the list, and P is not stored to again.
+class _Subst(ast.NodeTransformer):
+    def __init__(self, env):
+        self.env = env
+
+    def visit_Name(self, n):
+        if isinstance(n.ctx, ast.Load) and n.id in self.env:
+            return ast.copy_location(copy.deepcopy(self.env[n.id]), n)
+        return n
+
+
+def _is_const(e):
+    return isinstance(e, ast.Constant) and type(e.value) in (str, int, bool, type(None))
+
+
+def _literal_rows(e, arity):
+    """-> list of lists of constant nodes when e is a literal sequence of (tuples of) constants"""
+    if not isinstance(e, (ast.Tuple, ast.List)) or not e.elts:
+        return None
+    rows = []
+    for x in e.elts:
+        if arity == 0:
+            if not _is_const(x):
+                return None
+            rows.append([x])
+        else:
+            if not (isinstance(x, ast.Tuple) and len(x.elts) == arity and all(_is_const(c) for c in x.elts)):
+                return None
+            rows.append(list(x.elts))
+    return rows
+
+
+def _names_stored(nodes):
+    out = set()
+    for st in nodes:
+        for n in ast.walk(st):
+            if isinstance(n, ast.Name) and isinstance(n.ctx, (ast.Store, ast.Del)):
+                out.add(n.id)
+            elif isinstance(n, ast.ExceptHandler) and n.name:
+                out.add(n.name)
+    return out
+
+
+def _loads(nodes, name):
+    return sum(1 for st in nodes for n in ast.walk(st) if isinstance(n, ast.Name) and n.id == name and isinstance(n.ctx, ast.Load))
+
+
+def _direct_break(stmts):
+    """break / continue that belongs to the loop whose body `stmts` is"""
+    for st in stmts:
+        if isinstance(st, (ast.Break, ast.Continue)):
+            return True
+        if isinstance(st, (ast.For, ast.While)):
+            if _direct_break(st.orelse):
+                return True
+            continue
+        for field in ("body", "orelse", "finalbody"):
+            if _direct_break(getattr(st, field, []) or []):
+                return True
+        for h in getattr(st, "handlers", []) or []:
+            if _direct_break(h.body):
+                return True
+    return False
+
+
+def normalise(fn):
+    """-> a normalised deep copy of the function definition"""
+    fn = copy.deepcopy(fn)
+
+    # ---- N2
+    class G(ast.NodeTransformer):
+        def visit_Call(self, n):
+            self.generic_visit(n)
+            if isinstance(n.func, ast.Name) and n.func.id == "getattr" and len(n.args) == 2 and not n.keywords \
+                    and isinstance(n.args[1], ast.Constant) and type(n.args[1].value) is str and n.args[1].value.isidentifier():
+                return ast.copy_location(ast.Attribute(value=n.args[0], attr=n.args[1].value, ctx=ast.Load()), n)
+            return n
+
+    def all_stmt_lists(node):
+        for n in ast.walk(node):
+            for field in ("body", "orelse", "finalbody"):
+                l = getattr(n, field, None)
+                if isinstance(l, list) and l and isinstance(l[0], ast.stmt):
+                    yield l
+            if isinstance(n, ast.Try):
+                for h in n.handlers:
+                    yield h.body
+
+    # ---- N1: literal rows reachable through a local bound once
+    def once_bound_literal(name):
+        binds = [n for n in ast.walk(fn) if isinstance(n, ast.Assign) and any(
+            isinstance(m, ast.Name) and m.id == name for t in n.targets for m in ast.walk(t))]
+        if len(binds) != 1 or len(binds[0].targets) != 1 or not isinstance(binds[0].targets[0], ast.Name):
+            return None
+        if name in {a.arg for a in fn.args.args}:
+            return None
+        stores = sum(1 for n in ast.walk(fn) if isinstance(n, ast.Name) and n.id == name and not isinstance(n.ctx, ast.Load))
+        if stores != 1 or _loads([fn], name) != 1:
+            return None
+        return binds[0]
+
+    changed = True
+    while changed:
+        changed = False
+        for lst in all_stmt_lists(fn):
+            for i, st in enumerate(lst):
+                if not isinstance(st, ast.For) or st.orelse:
+                    continue
+                tgt = st.target
+                if isinstance(tgt, ast.Name):
+                    names, arity = [tgt.id], 0
+                elif isinstance(tgt, ast.Tuple) and all(isinstance(x, ast.Name) for x in tgt.elts):
+                    names, arity = [x.id for x in tgt.elts], len(tgt.elts)
+                else:
+                    continue
+                it, binder = st.iter, None
+                if isinstance(it, ast.Name):
+                    binder = once_bound_literal(it.id)
+                    if binder is None:
+                        continue
+                    it = binder.value
+                rows = _literal_rows(it, arity)
+                if rows is None or len(set(names)) != len(names):
+                    continue
+                if _direct_break(st.body) or set(names) & _names_stored(st.body):
+                    continue
+                # the loop variables must not be read after the loop (they would hold the last row)
+                total = sum(_loads([fn], nm) for nm in names)
+                inside = sum(_loads(st.body, nm) for nm in names)
+                if total != inside:
+                    continue
+                new = []
+                for row in rows:
+                    env = dict(zip(names, row))
+                    for b in st.body:
+                        new.append(ast.fix_missing_locations(_Subst(env).visit(copy.deepcopy(b))))
+                lst[i:i + 1] = new
+                if binder is not None:
+                    for l2 in all_stmt_lists(fn):
+                        if binder in l2:
+                            l2.remove(binder)
+                            break
+                changed = True
+                break
+            if changed:
+                break
+    fn = ast.fix_missing_locations(G().visit(fn))
+
+    def fresh_empty(v):
+        return (isinstance(v, ast.List) and not v.elts) or (isinstance(v, ast.Dict) and not v.keys) or \
+            (isinstance(v, ast.Call) and isinstance(v.func, ast.Name) and v.func.id == "Counter" and not v.args and not v.keywords)
+
+
+    # ---- N7  P.update((k, v) for x in it)  ->  __require_dict__(P); for x in it: P[k] = v
+    # ---- N8  y = P.setdefault(k, <fresh empty>)  ->  _sdN = k; __require_dict__(P); if _sdN not in P: P[_sdN] = <fresh>;
+    #          and y stands for P[_sdN] in the rest of the statement list (conditions as for N3)
+    # ---- N9  T = {k: v for x in it}  ->  T = {}; for x in it: T[k] = v        (T a name or a path)
+    # ---- N10 for i, x in enumerate(f, <int constant>): body  ->  i = <constant>; for x in f: body; i += 1
+    #          (no direct `continue` in the body, i not assigned in the body, i not read after the loop)
+    counter = [0]
+
+    def load(e):
+        e = copy.deepcopy(e)
+        for n in ast.walk(e):
+            if hasattr(n, "ctx"):
+                n.ctx = ast.Load()
+        return e
+
+    def store(e):
+        e = load(e)
+        e.ctx = ast.Store()
+        return e
+
+    def req(pth, at):
+        return ast.copy_location(ast.Expr(value=ast.Call(func=ast.Name(id="__require_dict__", ctx=ast.Load()), args=[load(pth)], keywords=[])), at)
+
+    def simple_path(e):
+        return root_of(e) is not None and not _has_slice(e)
+
+    def direct_continue(stmts):
+        for st in stmts:
+            if isinstance(st, ast.Continue):
+                return True
+            if isinstance(st, (ast.For, ast.While)):
+                continue
+            for field in ("body", "orelse", "finalbody"):
+                if direct_continue(getattr(st, field, []) or []):
+                    return True
+            for h in getattr(st, "handlers", []) or []:
+                if direct_continue(h.body):
+                    return True
+        return False
+
+    again = True
+    while again:
+        again = False
+        for lst in all_stmt_lists(fn):
+            for i, st in enumerate(lst):
+                new = None
+                # N7
+                if isinstance(st, ast.Expr) and isinstance(st.value, ast.Call) and isinstance(st.value.func, ast.Attribute) \
+                        and st.value.func.attr == "update" and simple_path(st.value.func.value) and len(st.value.args) == 1 \
+                        and not st.value.keywords and isinstance(st.value.args[0], ast.GeneratorExp):
+                    g = st.value.args[0]
+                    if len(g.generators) == 1 and not g.generators[0].ifs and isinstance(g.generators[0].target, ast.Name) \
+                            and isinstance(g.elt, ast.Tuple) and len(g.elt.elts) == 2:
+                        pth = st.value.func.value
+                        counter[0] += 1
+                        gv = "gen_var%d" % counter[0]      # the generator's variable lives in its own scope
+                        if any(isinstance(n, ast.Name) and n.id == gv for n in ast.walk(fn)):
+                            continue
+                        ren = _Subst({g.generators[0].target.id: ast.Name(id=gv, ctx=ast.Load())})
+                        tgt = ast.Subscript(value=load(pth), slice=ren.visit(copy.deepcopy(g.elt.elts[0])), ctx=ast.Store())
+                        loop = ast.For(target=ast.Name(id=gv, ctx=ast.Store()), iter=g.generators[0].iter,
+                                       body=[ast.Assign(targets=[tgt], value=ren.visit(copy.deepcopy(g.elt.elts[1])))], orelse=[])
+                        new = [req(pth, st), ast.copy_location(loop, st)]
+                # N9
+                elif isinstance(st, ast.Assign) and len(st.targets) == 1 and isinstance(st.value, ast.DictComp) \
+                        and (isinstance(st.targets[0], ast.Name) or simple_path(st.targets[0])):
+                    g = st.value
+                    if len(g.generators) == 1 and not g.generators[0].ifs and isinstance(g.generators[0].target, ast.Name) \
+                            and not _loads([g], root_of(st.targets[0])):
+                        counter[0] += 1
+                        gv = "gen_var%d" % counter[0]      # the comprehension's variable lives in its own scope
+                        if any(isinstance(n, ast.Name) and n.id == gv for n in ast.walk(fn)):
+                            continue
+                        ren = _Subst({g.generators[0].target.id: ast.Name(id=gv, ctx=ast.Load())})
+                        tgt = ast.Subscript(value=load(st.targets[0]), slice=ren.visit(copy.deepcopy(g.key)), ctx=ast.Store())
+                        loop = ast.For(target=ast.Name(id=gv, ctx=ast.Store()), iter=g.generators[0].iter,
+                                       body=[ast.Assign(targets=[tgt], value=ren.visit(copy.deepcopy(g.value)))], orelse=[])
+                        new = [ast.copy_location(ast.Assign(targets=[st.targets[0]], value=ast.Dict(keys=[], values=[])), st),
+                               ast.copy_location(loop, st)]
+                # N10
+                elif isinstance(st, ast.For) and not st.orelse and isinstance(st.target, ast.Tuple) and len(st.target.elts) == 2 \
+                        and all(isinstance(x, ast.Name) for x in st.target.elts) and isinstance(st.iter, ast.Call) \
+                        and isinstance(st.iter.func, ast.Name) and st.iter.func.id == "enumerate" and not st.iter.keywords \
+                        and len(st.iter.args) in (1, 2) and (len(st.iter.args) == 1 or (
+                            isinstance(st.iter.args[1], ast.Constant) and type(st.iter.args[1].value) is int)):
+                    ix, xv = st.target.elts[0].id, st.target.elts[1].id
+                    start = st.iter.args[1].value if len(st.iter.args) == 2 else 0
+                    if ix != xv and ix not in _names_stored(st.body) and not direct_continue(st.body) \
+                            and _loads([fn], ix) == _loads(st.body, ix) and ix not in {a.arg for a in fn.args.args}:
+                        init = ast.Assign(targets=[ast.Name(id=ix, ctx=ast.Store())], value=ast.Constant(value=start))
+                        inc = ast.AugAssign(target=ast.Name(id=ix, ctx=ast.Store()), op=ast.Add(), value=ast.Constant(value=1))
+                        loop = ast.For(target=ast.Name(id=xv, ctx=ast.Store()), iter=st.iter.args[0], body=list(st.body) + [inc], orelse=[])
+                        new = [ast.copy_location(init, st), ast.copy_location(loop, st)]
+                        ast.copy_location(inc, st)
+                # N8
+                elif isinstance(st, ast.Assign) and len(st.targets) == 1 and isinstance(st.targets[0], ast.Name) \
+                        and isinstance(st.value, ast.Call) and isinstance(st.value.func, ast.Attribute) \
+                        and st.value.func.attr == "setdefault" and simple_path(st.value.func.value) and len(st.value.args) == 2 \
+                        and not st.value.keywords and fresh_empty(st.value.args[1]):
+                    y, pth = st.targets[0].id, st.value.func.value
+                    rest = lst[i + 1:]
+                    pnames = {n.id for n in ast.walk(pth) if isinstance(n, ast.Name)}
+                    stores_y = sum(1 for n in ast.walk(fn) if isinstance(n, ast.Name) and n.id == y and not isinstance(n.ctx, ast.Load))
+                    if y not in pnames and not ((pnames | {y}) & _names_stored(rest)) and stores_y == 1 \
+                            and _loads([fn], y) == _loads(rest, y) and y not in {a.arg for a in fn.args.args}:
+                        counter[0] += 1
+                        kn = "sd_key%d" % counter[0]
+                        if any(isinstance(n, ast.Name) and n.id == kn for n in ast.walk(fn)):
+                            continue
+                        elem = ast.Subscript(value=load(pth), slice=ast.Name(id=kn, ctx=ast.Load()), ctx=ast.Load())
+                        test = ast.Compare(left=ast.Name(id=kn, ctx=ast.Load()), ops=[ast.NotIn()], comparators=[load(pth)])
+                        new = [ast.copy_location(ast.Assign(targets=[ast.Name(id=kn, ctx=ast.Store())], value=st.value.args[0]), st),
+                               req(pth, st),
+                               ast.copy_location(ast.If(test=test, body=[ast.Assign(targets=[store(elem)], value=st.value.args[1])], orelse=[]), st)]
+                        for k2 in range(i + 1, len(lst)):
+                            lst[k2] = ast.fix_missing_locations(_Subst({y: elem}).visit(lst[k2]))
+                if new is not None:
+                    lst[i:i + 1] = [ast.fix_missing_locations(x) for x in new]
+                    again = True
+                    break
+            if again:
+                break
+
+    # ---- N3
+    for lst in list(all_stmt_lists(fn)):
+        i = 0
+        while i < len(lst):
+            st = lst[i]
+            i += 1
+            if not (isinstance(st, ast.Assign) and len(st.targets) == 1 and isinstance(st.targets[0], ast.Name) and fresh_empty(st.value)):
+                continue
+            x = st.targets[0].id
+            if x in {a.arg for a in fn.args.args}:
+                continue
+            # the store P = x, later in the same list, x untouched in between
+            j = None
+            for k in range(i, len(lst)):
+                s2 = lst[k]
+                if isinstance(s2, ast.Assign) and len(s2.targets) == 1 and isinstance(s2.value, ast.Name) and s2.value.id == x \
+                        and isinstance(s2.targets[0], (ast.Subscript, ast.Attribute)) and root_of(s2.targets[0]) is not None \
+                        and not _has_slice(s2.targets[0]):
+                    j = k
+                    break
+                if _loads([s2], x) or x in _names_stored([s2]):
+                    break
+            if j is None:
+                continue
+            path = lst[j].targets[0]
+            rest = lst[j + 1:]
+            if not _loads(rest, x):
+                continue
+            pnames = {n.id for n in ast.walk(path) if isinstance(n, ast.Name)}
+            if x in pnames or (pnames | {x}) & _names_stored(rest):
+                continue
+            # x is used in this statement list only (it is rebound before any other use elsewhere: a loop body)
+            if _loads([fn], x) != _loads(rest, x) + 1:
+                continue
+            stores_x = sum(1 for n in ast.walk(fn) if isinstance(n, ast.Name) and n.id == x and not isinstance(n.ctx, ast.Load))
+            if stores_x != 1:
+                continue
+            # P is not stored to again
+            pdump = ast.dump(path).replace("Store()", "Load()")
+            again = any(isinstance(n, (ast.Assign, ast.AugAssign)) and any(
+                ast.dump(t).replace("Store()", "Load()") == pdump for t in (n.targets if isinstance(n, ast.Assign) else [n.target]))
+                for s3 in rest for n in ast.walk(s3))
+            if again:
+                continue
+            load_path = copy.deepcopy(path)
+            for n in ast.walk(load_path):
+                if hasattr(n, "ctx"):
+                    n.ctx = ast.Load()
+            for k in range(j + 1, len(lst)):
+                lst[k] = ast.fix_missing_locations(_Subst({x: load_path}).visit(lst[k]))
+    return fn
 
 
 class FunctionTranslator:
@@ -280,6 +641,7 @@ class FunctionTranslator:
             elif isinstance(n, ast.ExceptHandler) and n.name:
                 binders.add(n.name)
         self.locals = binders
+        self.scalar_copies = set()
         # roots of in-place mutations anywhere in the function
         self.mutated = set()
         for n in ast.walk(fn):
@@ -338,6 +700,11 @@ class FunctionTranslator:
         if r is None:
             return
         if r in self.mutated:
+            if holder is not None and holder != r and holder not in self.mutated and isinstance(node, ast.Assign) \
+                    and len(node.targets) == 1 and isinstance(node.targets[0], ast.Name) and node.value is e \
+                    and not isinstance(e, ast.Name):
+                self.scalar_copies.add(id(node))     # translated with a run-time test that the value is immutable
+                return
             self.fail(node, "a value read from %r is given a second name / stored, and %r is mutated in place in this "
                             "function (aliasing is not modelled)" % (r, r))
         if holder is not None and holder != r and holder in self.mutated:
@@ -529,6 +896,14 @@ class FunctionTranslator:
                 lazy = "if %s then XDone true else %s" % (c, rest) if is_or else "if %s then %s else XDone false" % (c, rest)
                 steps, acc, acc_out = st + [(t, lazy, False)], t, None
             return steps, acc
+        if isinstance(e, ast.Compare) and len(e.ops) == 2:
+            # a op b op' c with b a name or a constant (evaluated once either way): a op b and b op' c
+            mid = e.comparators[0]
+            if not (isinstance(mid, ast.Name) or _is_const(mid)):
+                self.fail(e, "chained comparison whose middle operand is not a name / constant")
+            left = ast.copy_location(ast.Compare(left=e.left, ops=[e.ops[0]], comparators=[mid]), e)
+            right = ast.copy_location(ast.Compare(left=copy.deepcopy(mid), ops=[e.ops[1]], comparators=[e.comparators[1]]), e)
+            return self.cond(ast.copy_location(ast.BoolOp(op=ast.And(), values=[left, right]), e), env)
         if isinstance(e, ast.Compare):
             if len(e.ops) != 1:
                 self.fail(e, "chained comparison")
@@ -624,6 +999,14 @@ class FunctionTranslator:
             st, a = args()
             t = self.fresh()
             return st + [(t, "dy_range %s %s" % (a[0], a[1]), False)], t
+        if self.is_global(f, "range") and nargs == 1:
+            st, a = args()
+            t = self.fresh()
+            return st + [(t, "dy_range (VInt (0%%Z)) %s" % a[0], False)], t
+        if self.is_global(f, "__require_dict__") and nargs == 1:
+            st, a = args()
+            t = self.fresh()
+            return st + [(t, "dy_require_dict %s" % a[0], False)], t
         if self.is_attr_chain(f, ["os", "path", "join"]) and nargs >= 1:
             self.need_import(e, "os")
             st, a = args()
@@ -881,6 +1264,9 @@ class FunctionTranslator:
             if x in self.cur_frozen:
                 self.fail(s, "%r is rebound while a loop iterates over it" % x)
             steps, text = self.expr(v, env)
+            if id(s) in self.scalar_copies:
+                t = self.fresh()
+                steps, text = steps + [(t, "dy_scalar %s" % _paren(text), False)], t
 
             def body(i, n):
                 env.vals.add(x)
@@ -967,6 +1353,9 @@ class FunctionTranslator:
                 self.fail(s, "print is supported as print(...) / print(..., file=sys.stderr) only")
             self.printed_names_ok(s, c)
             return self.line(ind, "(* printed, not modelled *)", s) + after(env, ind)
+        if self.is_global(f, "__require_dict__") and len(c.args) == 1 and not c.keywords:
+            steps, _ = self.expr(c, env)
+            return self.with_steps(steps, env, k, ind, s, lambda i, n: after(env, i))
         if self.is_attr_chain(f, ["traceback", "print_exc"]):
             self.printed_names_ok(s, c)
             return self.line(ind, "(* printed, not modelled *)", s) + after(env, ind)
@@ -1342,7 +1731,7 @@ def _module(repo, rel, cache):
                         and not (isinstance(m.value, ast.Name) and m.value.id == "self"):
                     raise TranslateError("%s:%d: %s is rebound" % (path, n.lineno, ast.unparse(m)))
         if isinstance(n, ast.Name) and n.id in ("setattr", "delattr", "globals", "__builtins__", "exec", "eval",
-                                                "getattr", "vars", "locals"):
+                                                "vars", "locals"):
             raise TranslateError("%s:%d: %s is used in the module" % (path, n.lineno, n.id))
     cache[rel] = dict(path=path, defs=defs, classes=classes, imported=imported, from_collections=from_collections)
     return cache[rel]
@@ -1368,7 +1757,7 @@ def render(repo=None, group="omen"):
         for m in MODULES:
             if any(isinstance(n, ast.Name) and n.id == m for n in ast.walk(fn)) and m not in mod["imported"]:
                 raise TranslateError("%s: %s uses %s, which the module does not import plainly" % (mod["path"], spec["py"], m))
-        parts.append(FunctionTranslator(mod["path"], fn, spec, mod).translate())
+        parts.append(FunctionTranslator(mod["path"], normalise(fn), spec, mod).translate())
     if group == "grammar":
         for ext in EXTERN:
             mod = _module(repo, ext["source"], cache)
